@@ -161,7 +161,7 @@ func loadC13Corpus() {
 
 func TestC13(t *testing.T) {
 	r, e := start(t, "C13",
-		"(0) exhaustively every file of one or two lexemes from a 46-entry vocabulary, with and without a final line break; (0a) break / continue / return / func / import / panic in 19 kinds of context; (0b) every typed position of C06's table x every offered type and shape (totality only); (a) byte strings built from a dictionary of keywords, operators, quotes, comment markers, control and non-UTF-8 bytes; (b) token soup from the token vocabulary; (c) near misses: 1-2 token deletions, insertions, duplications, replacements, swaps and operand re-shapings (an operand parenthesised, indexed, sliced, turned into a call, a literal slice or a builtin result) applied to valid programs (the suite's sources, examples, std/*.tsh, generated programs); (d) import graphs over <= 4 files with every kind of edge (self-import, 2- and 3-cycles, missing files, directories, invalid imported files), main path missing or a directory. Each input is transpiled for both targets in a child worker process. Oracle: (script, nil) or (\"\", non-empty error); no panic, no worker death, no run beyond 60 s. Non-trivial = inputs that pass the lexer (they reach parser/transpiler code); distinct by input bytes.",
+		"(0) exhaustively every file of one or two lexemes from a 46-entry vocabulary, with and without a final line break; (0a) break / continue / return / func / import / panic in 19 kinds of context; (0b) every typed position of C06's table x every offered type and shape (totality only); (0c) call graphs of 2-90 functions (chain, Fibonacci-shaped, dense, fan-out, inside an imported file); (a) byte strings built from a dictionary of keywords, operators, quotes, comment markers, control and non-UTF-8 bytes; (b) token soup from the token vocabulary; (c) near misses: 1-2 token deletions, insertions, duplications, replacements, swaps and operand re-shapings (an operand parenthesised, indexed, sliced, turned into a call, a literal slice or a builtin result) applied to valid programs (the suite's sources, examples, std/*.tsh, generated programs); (d) import graphs over <= 4 files with every kind of edge (self-import, 2- and 3-cycles, missing files, directories, invalid imported files), main path missing or a directory. Each input is transpiled for both targets in a child worker process. Oracle: (script, nil) or (\"\", non-empty error); no panic, no worker death, no run beyond 60 s. Non-trivial = inputs that pass the lexer (they reach parser/transpiler code); distinct by input bytes.",
 		[]string{"a hang is decided by a 20 s watchdog, confirmed once in a fresh worker with 60 s (normal inputs take < 50 ms)", "super-linear slowness on inputs far larger than 2 KiB is not explored"})
 	defer r.Flush()
 	defer c13Pool.Close()
@@ -258,6 +258,70 @@ func TestC13(t *testing.T) {
 						return
 					}
 					r.Violate(rep.Sig{"kind": kind, "input": "jump-placement", "context": cx.name, "jump": strings.SplitN(j, "\n", 2)[0]}, fmt.Sprintf("%q in context %s: %s", j, cx.name, msg), c)
+				}
+			}
+		}
+	}
+
+	// call graphs: n functions, each calling earlier ones (chains, Fibonacci-shaped graphs f(i) -> f(i-1), f(i-2), dense graphs,
+	// wide fan-out); bounded time means the walk over the call graph does not repeat shared callees over and over
+	{
+		idx := 0
+		for _, shape := range []string{"chain", "fib", "dense", "fan-out", "fib-in-library"} {
+			for _, n := range []int{2, 8, 24, 40, 64, 90} {
+				idx++
+				if !e.Mine(idx) {
+					continue
+				}
+				var sb strings.Builder
+				pub := func(i int) string { return fmt.Sprintf("f%d", i) }
+				if shape == "fib-in-library" {
+					pub = func(i int) string { return fmt.Sprintf("F%d", i) }
+				}
+				for i := 0; i < n; i++ {
+					callees := []int{}
+					switch shape {
+					case "chain":
+						if i > 0 {
+							callees = []int{i - 1}
+						}
+					case "fib", "fib-in-library":
+						if i > 1 {
+							callees = []int{i - 1, i - 2}
+						}
+					case "dense":
+						for j := 0; j < i; j++ {
+							callees = append(callees, j)
+						}
+					case "fan-out":
+						if i == n-1 {
+							for j := 0; j < i; j++ {
+								callees = append(callees, j)
+							}
+						}
+					}
+					body := "1"
+					for _, j := range callees {
+						body += " + " + pub(j) + "()"
+					}
+					sb.WriteString("func " + pub(i) + "() int {\n\treturn " + body + "\n}\n")
+				}
+				c := totalCase{Kind: "total", Property: "C13", Main: "main.tsh", Note: fmt.Sprintf("call-graph:%s/%d", shape, n)}
+				if shape == "fib-in-library" {
+					c.Files = map[string]string{"main.tsh": "import lb \"lib.tsh\"\nprint(lb." + pub(n-1) + "())\n", "lib.tsh": sb.String()}
+				} else {
+					sb.WriteString("print(" + pub(n-1) + "())\n")
+					c.FilesHex = map[string]string{"main.tsh": hexEnc(sb.String())}
+				}
+				r.Eval()
+				r.Class("call-graph:" + shape)
+				r.NonTrivial(c.Note, nil)
+				if kind, msg, _ := checkTotal(c); kind != "" {
+					if kind == "harness" {
+						r.HarnessError("%s", msg)
+						return
+					}
+					r.Violate(rep.Sig{"kind": kind, "input": "call-graph", "shape": shape}, fmt.Sprintf("%d functions, call graph %s: %s", n, shape, msg), c)
 				}
 			}
 		}
